@@ -38,14 +38,23 @@ def facts(c):
 
 def prioritise(c, ops_f, impl_f, model_f):
     """cases are independent (each starts with `reset`): move the cases in which the implementation's own oracle
-    failed to the front of all three streams, so that concrete failing inputs are shrunk and reported first"""
+    failed to the front of all three streams — those whose failing op is not of a kind named by a known finding
+    first — so that new concrete failing inputs are shrunk and reported before anything else"""
+    import re
     ops, impl, model = (open(f).read().splitlines() for f in (ops_f, impl_f, model_f))
     if not (len(ops) == len(impl) == len(model)):
         return ops_f, impl_f, model_f
     cases = vcheck.split_cases(ops)
     head = list(range(0, cases[0][0])) if cases else []
-    bad = lambda ab: any(impl[i].startswith(("FAIL", "panic")) for i in range(*ab))  # noqa: E731
-    order = head + [i for ab in sorted(cases, key=lambda ab: 0 if bad(ab) else 1) for i in range(*ab)]
+    known_last = [k.get("match", {}).get("ops", [""])[-1] for k in vcheck.load_known(PID)]
+
+    def rank(ab):
+        bad = [i for i in range(*ab) if impl[i].startswith(("FAIL", "panic"))]
+        if not bad:
+            return 2
+        return 1 if all(any(p and re.search(p, ops[i]) for p in known_last) for i in bad) else 0
+
+    order = head + [i for ab in sorted(cases, key=rank) for i in range(*ab)]
     out = []
     for name, lines in (("p.ops", ops), ("p.impl", impl), ("p.model", model)):
         f = os.path.join(c.work, name)
@@ -60,13 +69,21 @@ def run(a):
                      "(random layouts up to 12 regions, splits at chosen PD loads, regionsPerTask 1..4|128, workers 1..8, optional failing handler call), "
                      "del = REAL DeleteRangeTask on mocktikv data vs map reference, gc = REAL tikv.ResolveLocksForRange / GCResolveLockPhase over mocktikv "
                      "(populations of committed/rolled-back/pending/pessimistic transactions, scan limit 1..5, splits after chosen scans) with scan-trace "
-                     "correspondence and a store-level audit (incl. that a batched resolve acknowledged by the client was applied to every lock it named), vis = snapshot Get/BatchGet/Iter below/at/above the cached txn safe point; "
+                     "correspondence and a store-level audit (incl. that a batched resolve acknowledged by the client was applied to every lock it named), vis = snapshot Get/BatchGet/Iter below/at/above the cached txn safe point, "
+                     "runc = cancellation of the CALLER's context while the REAL Runner runs (inside the i-th handler call for every i, unnoticed by the handler, with a sub-range "
+                     "provably queued behind the busy workers or all sub-ranges in handlers; before the run; between two pulls; workers 1..4) with the property op chk-complete "
+                     "(nil result => the handled sub-ranges cover the whole range, else FAIL success-with-gap), gcc = the same at GC level (GCResolveLockPhase over 260..410 regions, "
+                     "context cancelled right after a chosen ScanLock, nil => store-level audit); the model side runs the forced schedule through the scheduled-runner model under both producer select choices; "
                      "correspondence = canonical output equal to the Lean model, property = oracle evaluated by each side on its own output; distinct = distinct op lines")
     c.assumptions = [
         "gc shim/phase modes run over an RPC wrapper that applies ScanLock StartKey/EndKey/Limit to the mock's answer and forwards batched "
         "ResolveLock TxnInfos to the mock's own MVCCStore.BatchResolveLock (the mock's RPC handler ignores the ScanLock bounds; the batched TxnInfos form is honoured since /repo a713e36); gc pure runs the unmodified mock",
         "gc_preserves_outcomes is proved for the store half (a GC command keeps reads >= safe point, records above it and the invariant, Proofs/MvccTemporal); the cross-key protocol half is validated by the store-level audit only",
         "async-commit locks are not generated (mocktikv has no async commit); pessimistic locks are reported by the mock without lock type",
+        "cancellation: schedules are forced on the real runner through handler gates and PD/RPC wrappers (polling waits, no sleeps as synchronisation); "
+        "`runc before|between` are repeated 24 times because their outcome depends on Go's random choice among ready select cases (known finding "
+        "C14-runonrange-nil-after-producer-abandons); `inh` ops are skipped by both sides when neither `all remaining sub-ranges are in handlers` nor "
+        "`a sub-range is queued behind the busy workers` can be established from outside",
         "which worker handles which sub-range is not modelled: with a failing handler and more than one worker only `error reported` and "
         "the shape of the handled sub-ranges are checked",
     ]
